@@ -795,6 +795,9 @@ def sequence_once(steps, seed):
                 return ('processed', verdict[-1] if verdict else None)
         else:
             session = client.session()
+            ended = []
+            session.event_dispatcher.add_listener(_S.Event.end_transfer, lambda response: ended.append(getattr(response.reply, 'code', None)))
+            world.setdefault('ended', []).append((how, ended))
 
             async def run_it():
                 with session:
@@ -847,6 +850,7 @@ def sequence_once(steps, seed):
                 fresh.append(cid not in seen)
                 seen.update(c for c, _ in own)
             results.append(fresh)
+            results.append([(h, list(e)) for h, e in world.get('ended', [])])
             return results
     tmp = tempfile.mkdtemp(prefix='wpull-verif-c17-')
     cwd = os.getcwd()
@@ -858,11 +862,102 @@ def sequence_once(steps, seed):
         shutil.rmtree(tmp, ignore_errors=True)
 
 
+class GreetingFtp(FtpServer):
+    """Sends its whole greeting phase — possibly more than one complete reply — in the given segments, then answers
+    commands one reply each."""
+
+    def __init__(self, net, greeting_segments):
+        FtpServer.__init__(self, net)
+        self.segs = greeting_segments
+        self.cmds = []
+
+    async def serve(self, conn):
+        self.greeted, self.waiting = False, []
+        await conn.send_segments(self.segs, yields=2)
+        self.greeted = True
+        for line in self.waiting:               # the control stream is ONE byte sequence: replies follow the greeting
+            FtpServer.handle(self, conn, line)
+
+    def handle(self, conn, line):
+        self.cmds.append(line)
+        if not getattr(self, 'greeted', True):
+            self.waiting.append(line)
+            return
+        FtpServer.handle(self, conn, line)
+
+
+def greeting_once(segments):
+    """Real Session.start against a server whose greeting bytes arrive cut as `segments`: -> (outcome, commands sent)."""
+    from wpull.protocol.ftp.client import Client
+    from wpull.protocol.ftp.request import Request
+    from wpull.network.pool import ConnectionPool
+    servers = []
+
+    def factory():
+        srv = GreetingFtp(net, segments)
+        servers.append(srv)
+        return srv
+
+    async def go():
+        net.listen('10.0.0.1', 21, factory)
+        net.listen('10.0.0.1', 2020, FtpData)
+        with net:
+            client = Client(connection_pool=ConnectionPool(resolver=fakenet.FakeResolver()))
+            session = client.session()
+            with session:
+                task = asyncio.ensure_future(compat._ensure(session.start(Request('ftp://h/dir/f.bin'))))
+                done = await fakenet.settle(task, [], extra=300)
+                if not done:
+                    task.cancel()
+                    try:
+                        await task
+                    except BaseException:
+                        pass
+                    session.abort()
+                    return 'stalled'
+                try:
+                    task.result()
+                    out = 'started'
+                except Exception as e:
+                    out = 'exc ' + classify_exc(e)
+                session.abort()
+                return out
+    net = fakenet.FakeNet()
+    out = arun(go())
+    return out, tuple(bytes(c) for s in servers for c in s.cmds)
+
+
+GREETINGS = [b'220 ready\r\n', b'220-hello\r\n220 ready\r\n', b'220 gateway\r\n220 (vsFTPd 3.0.3)\r\n', b'220 a\r\n220 b\r\n220 c\r\n',
+             b'220 gateway\r\n331 odd\r\n', b'220 ready\r\n230 already in\r\n', b'120 wait\r\n220 ready\r\n', b'220-x\r\n 220 not yet\r\n220 ok\r\n220 again\r\n']
+
+
+def stream_greeting(ctx, n):
+    """One control stream, several segmentations: what the session makes of the greeting phase (how many replies it takes
+    for the greeting, which commands it sends, how the login ends) must not depend on how the bytes were cut."""
+    rng = ctx.subrng('greeting')
+    first = None
+    for i in range(n):
+        g = GREETINGS[i % len(GREETINGS)]
+        cutsets = [[], [j + 1 for j, b in enumerate(g[:-1]) if b == 10], list(range(1, len(g))), fakenet.random_cuts(rng, len(g), 'few'),
+                   fakenet.random_cuts(rng, len(g), 'one')]
+        outs = []
+        for cuts in cutsets:
+            outs.append(greeting_once(fakenet.segment(g, cuts)))
+        case = {'stream': 'greeting', 'greeting': g, 'cutsets': cutsets}
+        first = first or case
+        ctx.case(('greeting', g, repr(cutsets)), tags=['greeting:' + outs[0][0].split(' ')[0], 'greeting:replies=%d' % g.count(b'\n')])
+        if len(set(outs)) > 1:
+            ctx.fail('reply-not-whole', 'greeting', case, 'the same greeting bytes give different conversations for different segmentations: %r' % sorted(set(outs))[:3])
+    if first:
+        ctx.sample(first)
+
+
 PRIOR_KINDS = ['ok', 'data-reset', 'session-timeout', 'listener', 'hook-finish', 'hook-retry', 'probe-reset']
 
 
 def judge_sequence(ctx, steps, seed):
     res = sequence_once(steps, seed)
+    ended = res.pop()
     fresh = res.pop()
     case = {'stream': 'sequence', 'steps': [list(x) for x in steps], 'seed': seed}
     # the model: a fetch left by an exception loses its control connection, a completed one leaves it pooled
@@ -876,6 +971,12 @@ def judge_sequence(ctx, steps, seed):
     if rep != real:
         ctx.disagree('sequence', case, rep, real)
     ctx.case(('sequence', repr(steps)), tags=['sequence:' + '+'.join(h for h, _ in steps[:-1])])
+    # the end of a transfer is announced (to the WARC recorder, the progress display) only for a transfer that ended:
+    # data connection closed by the server and 226 read
+    for how, codes in ended:
+        if (how == 'ok' and codes != [226]) or (how != 'ok' and codes):
+            ctx.fail('premature-complete', 'end_transfer', case, 'a fetch that ended as %r announced end_transfer with reply codes %r '
+                     '(expected %s)' % (how, codes, '[226]' if how == 'ok' else 'no announcement: the transfer never finished'))
     last = res[-1]
     name = steps[-1][1]
     want = ('complete', FILES[('/dir/' + name).encode()], 226)
@@ -968,6 +1069,11 @@ def replay(ctx, case, kind=None, where=None):
                 ctx.fail('reply-of-another-command', 'Session.abort', case, 'with the abandoned earlier fetch: %r; alone: %r' % (res[:1] + res[2:], alone[:1] + alone[2:]))
     elif s == 'sequence':
         judge_sequence(ctx, [tuple(x) for x in case['steps']], case['seed'])
+    elif s == 'greeting':
+        outs = [greeting_once(fakenet.segment(case['greeting'], cuts)) for cuts in case['cutsets']]
+        ctx.case(('greeting', case['greeting']))
+        if len(set(outs)) > 1:
+            ctx.fail('reply-not-whole', 'greeting', case, 'different conversations for different segmentations: %r' % sorted(set(outs))[:3])
     elif s == 'transfer':
         stream_transfer(ctx, [(case['data'], case['eof'], case['ctrl'])])
     else:
@@ -1013,6 +1119,7 @@ def run(ctx):
     stream_transfer(ctx, tcases)
     stream_download(ctx, ctx.scale(200, 4000))
     stream_sequence(ctx, ctx.scale(40, 600))
+    stream_greeting(ctx, ctx.scale(24, 400))
     # session oracle: exhaustive single-byte injection
     for url in session_urls(range(256)):
         check_session(ctx, url, listing=False)
